@@ -415,32 +415,54 @@ func windowHistory(u *Universe, rnd *rand.Rand) []op {
 		}
 		return op{Op: "deliver", K: k.ID, V: v}
 	}
-	nwin := 6 + rnd.Intn(7)
-	for w := 0; w < nwin; w++ {
-		// by convention a group lists the object first and a key deciding its activity second
-		val := func(kid string) op {
-			k := u.key(kid)
-			return op{Op: "deliver", K: kid, V: k.Variants[rnd.Intn(len(k.Variants))].Name}
-		}
-		obj, act := g[0], g[1]
-		switch rnd.Intn(10) {
-		case 0, 1: // edited, then deactivated, in one window
-			ops = append(ops, val(obj), op{Op: "deliver", K: act, V: "nil"})
-		case 2: // activated and deactivated again in one window
-			ops = append(ops, val(act), op{Op: "deliver", K: act, V: "nil"})
-		case 3: // deactivated and re-activated in one window
-			ops = append(ops, op{Op: "deliver", K: act, V: "nil"}, val(act))
-		default:
-			n := []int{1, 2, 2, 3, 3, 4}[rnd.Intn(6)]
-			for i := 0; i < n; i++ {
-				ops = append(ops, pick())
-			}
-		}
+	// by convention a group lists the object first and a key deciding its activity second
+	val := func(kid string) op {
+		k := u.key(kid)
+		return op{Op: "deliver", K: kid, V: k.Variants[rnd.Intn(len(k.Variants))].Name}
+	}
+	gone := func(kid string) op { return op{Op: "deliver", K: kid, V: "nil"} }
+	flush := func() {
 		if !insync && rnd.Intn(3) == 0 {
 			ops = append(ops, op{Op: "status", V: "in-sync"})
 			insync = true
 		}
 		ops = append(ops, op{Op: "flush"})
+	}
+	obj, act := g[0], g[1]
+	rounds := 3 + rnd.Intn(4)
+	for r := 0; r < rounds; r++ {
+		// (A) a window that (re)creates the object and something that may activate it, flushed: "sent"
+		if rnd.Intn(10) < 7 {
+			ops = append(ops, val(obj))
+		}
+		ops = append(ops, val(act))
+		if rnd.Intn(3) == 0 {
+			ops = append(ops, pick())
+		}
+		flush()
+		// (B) a multi-update window
+		switch rnd.Intn(10) {
+		case 0, 1, 2: // edited, then deactivated, in one window
+			ops = append(ops, val(obj), gone(act))
+		case 3, 4: // removal flushed; later activated and deactivated again inside one window
+			ops = append(ops, gone(act))
+			flush()
+			if rnd.Intn(2) == 0 {
+				ops = append(ops, pick())
+				flush()
+			}
+			ops = append(ops, val(act), gone(act))
+		case 5: // deactivated and re-activated in one window
+			ops = append(ops, gone(act), val(act))
+		case 6: // object deleted and re-created in one window
+			ops = append(ops, gone(obj), val(obj))
+		default:
+			n := []int{2, 2, 3, 3, 4}[rnd.Intn(5)]
+			for i := 0; i < n; i++ {
+				ops = append(ops, pick())
+			}
+		}
+		flush()
 	}
 	if !insync {
 		ops = append(ops, op{Op: "status", V: "in-sync"}, op{Op: "flush"})
